@@ -107,3 +107,15 @@ Proof.
   split; [reflexivity|]. split; [reflexivity|]. split; [vm_compute; reflexivity|].
   split; [vm_compute; reflexivity|]. first [left; reflexivity | right; reflexivity].
 Qed.
+
+(* ------------------------------------------------------------------ the code is the specified one
+   The property-side specification is fixed here, not read from the code: fixed index = the
+   cleavage residue (shift 1), exception = trypsin_exception, targets sorted by
+   (sequence, FULL header) before seeding.  cfg_spec_ok says a model configuration has exactly
+   these switches; code_matches_spec_l says the switches translated from the current source are
+   these.  A code change to any of them (e.g. sorting by (seq, id)) breaks the obligation. *)
+Definition spec_switches (cfg : config) : Prop := c_shift cfg = 1 /\ c_keyhdr cfg = true.
+
+Lemma code_matches_spec_l :
+  site_index_shift = 1%Z /\ trypsin_exception_literal = trypsin_exc_name /\ sort_key_variant = 1%Z.
+Proof. split; [reflexivity|]. split; reflexivity. Qed.
